@@ -259,7 +259,7 @@ class StmtMixin:
                 self.exec_block(stmts, frame)
                 return True
             try:
-                r = self.under(cond, thunk)
+                r = self.under(cond, thunk, persist=False)
             except (E.PyExc, E._Return, E._Break, E._Continue):
                 return "fail"
             if len(run.log) != nlog:
